@@ -45,7 +45,8 @@ func TestMain(m *testing.M) {
 		"a window packet counts as permissibly lost iff an overflow report (ErrLocalBufferOverflow on the capture's error channel, observed through the logger) appears when the capture takes it; after a report the capture stops polling until the unlock, "+
 			"the remaining window packets of that event are delivered right after the event in both runs. Loss is permitted, not required: if the paused run differs from the twin without the reported packets, the subsets of them are tried too",
 		"the 'in' position of a live query uses the logger derivation inside Capture.flowMap (slog Handler.WithAttrs with the iface attribute) as the call-back point; if goProbe stops logging there the packets are delivered after the event and the class note:query-hook-missed shows it",
-		"schedule ownership: at packet / pause-event granularity (every delivery is followed by synctest.Wait); the interleaving of single instructions of the capture goroutine with the lock holder is not enumerated",
+		"schedule ownership: at packet / pause-event granularity (every delivery is followed by synctest.Wait). In events with window packets the lock holder waits (inside Stats() / the logger hook) until the capture goroutine is blocked on its source inside bufferPackets; "+
+			"the schedule in which the holder unlocks before the capture goroutine has looked for the unlock request once only occurs in events without window packets. The interleaving of single instructions of the capture goroutine with the lock holder is not enumerated",
 		"the C20 assumptions (stored keys from ParsePacket*/Classify*, packet-type meaning, non-decisive conversations) apply to the conservation check of the twin",
 		"the excluding mode (TestC21PauseExcluding) scripts IPv4 packets only inside windows; IPv6 traffic is delivered outside windows (finding "+findingF16+")")
 	evid.Main(m)
@@ -138,32 +139,41 @@ func (s signed) zero() bool   { return s == signed{} }
 // finding C21-F16: the IPv6 packets that went through the local buffer (and only those) are missing from the
 // IPv6 records of their conversations and appear, with the same direction and size, in IPv4 records whose key
 // is the first 13 bytes of their hash; everything else (status counters, all other records) is equal.
-// strict containers (blocks, flows in memory at the end) are checked per interval, live queries loosely.
-func explainF16(s *capharness.Script, a, tw *capharness.Result, accT *capharness.Accounting, drop map[int]bool) (bool, string) {
+// strict containers (blocks, flows in memory at the end) are checked per interval ('in' packets must all have
+// moved, each 'post' packet may or may not have: it is buffered unless the capture goroutine had left
+// bufferPackets already), live queries loosely. The two candidate keys of a non-decisive IPv6 conversation are
+// folded, because a mis-filed first packet lets the next packet choose the orientation.
+func explainF16(s *capharness.Script, a, tw *capharness.Result, accT *capharness.Accounting, drop map[int]bool) (ok bool, witness string, why string) {
 	var moved []capharness.Consumed
 	for _, c := range a.InWindow {
-		if c.Where != "pre" && c.P.V6 && c.P.OK() && !drop[c.P.ID] {
+		if (c.Where == "in" || c.Where == "post") && c.P.V6 && c.P.OK() && !drop[c.P.ID] {
 			moved = append(moved, c)
 		}
 	}
 	if len(moved) == 0 {
-		return false, ""
+		return false, "", "no IPv6 packet went through the local buffer"
 	}
 	// status counters must agree
 	if len(a.Events) != len(tw.Events) {
-		return false, ""
+		return false, "", "event counts differ"
 	}
 	for i := range a.Events {
 		for _, n := range s.Ifaces {
 			if a.Events[i].Kind == capharness.ActStatus && a.Events[i].Status[n] != tw.Events[i].Status[n] {
-				return false, ""
+				return false, "", fmt.Sprintf("status call %d differs on %s", i, n)
 			}
 		}
 	}
-	witness := ""
+	canon := map[capharness.Key]capharness.Key{}
+	for _, m := range moved {
+		if c := s.Convs[m.P.Conv]; c.Ambiguous {
+			canon[c.KeyRev] = c.KeyFwd
+		}
+	}
 	check := func(iface int, interval int, strict bool, got, want capharness.FlowSet) bool {
 		v6ok, v4ok := map[capharness.Key]bool{}, map[capharness.Key]bool{}
-		var sum capharness.Counters
+		var sum capharness.Counters     // 'in' packets: certainly taken inside bufferPackets
+		var maybe []capharness.Counters // 'post' packets: buffered unless the capture goroutine had left bufferPackets already
 		for _, m := range moved {
 			if m.Iface != iface {
 				continue
@@ -177,8 +187,27 @@ func explainF16(s *capharness.Script, a, tw *capharness.Result, accT *capharness
 			for _, k := range truncatedKeys(m.P) {
 				v4ok[k] = true
 			}
-			sum.Add(m.P.Counters())
+			if m.Where == "post" {
+				maybe = append(maybe, m.P.Counters())
+			} else {
+				sum.Add(m.P.Counters())
+			}
 		}
+		// a non-decisive IPv6 conversation may end up under its other candidate key when its first packet was
+		// mis-filed (the next packet creates the flow): both candidates are folded onto one key before comparing
+		fold := func(in capharness.FlowSet) capharness.FlowSet {
+			out := capharness.FlowSet{}
+			for k, v := range in {
+				if c, ok := canon[k]; ok {
+					k = c
+				}
+				x := out[k]
+				x.Add(v)
+				out[k] = x
+			}
+			return out
+		}
+		got, want = fold(got), fold(want)
 		var d6, d4 signed
 		keys := map[capharness.Key]bool{}
 		for k := range got {
@@ -200,6 +229,7 @@ func explainF16(s *capharness.Script, a, tw *capharness.Result, accT *capharness
 				continue
 			}
 			if !d.nonNeg() || (k.V6 && !v6ok[k]) || (!k.V6 && !v4ok[k]) {
+				why = fmt.Sprintf("record %v: paused %v, twin %v is not a shift of buffered IPv6 packets", k, got[k], want[k])
 				return false
 			}
 			if k.V6 {
@@ -212,12 +242,27 @@ func explainF16(s *capharness.Script, a, tw *capharness.Result, accT *capharness
 			}
 		}
 		if d6 != d4 {
+			why = fmt.Sprintf("IPv6 records lack %+v, IPv4 records gained %+v", d6, d4)
 			return false
 		}
 		if strict {
-			var w signed
-			w.add(sum, 1)
-			return d6 == w
+			if len(maybe) > 12 {
+				maybe = maybe[:12]
+			}
+			for mask := 0; mask < 1<<len(maybe); mask++ {
+				var w signed
+				w.add(sum, 1)
+				for i, c := range maybe {
+					if mask>>i&1 == 1 {
+						w.add(c, 1)
+					}
+				}
+				if d6 == w {
+					return true
+				}
+			}
+			why = fmt.Sprintf("records shifted by %+v, which is not the sum of the IPv6 packets buffered in the interval (%+v from 'in' packets plus a subset of %d 'post' packets)", d6, sum, len(maybe))
+			return false
 		}
 		return true
 	}
@@ -225,11 +270,11 @@ func explainF16(s *capharness.Script, a, tw *capharness.Result, accT *capharness
 	for i, n := range s.Ifaces {
 		ba, bt := a.Blocks[n], tw.Blocks[n]
 		if len(ba) != len(bt) {
-			return false, ""
+			return false, "", "number of blocks differs"
 		}
 		for j := range ba {
 			if ba[j].Ts != bt[j].Ts || len(ba[j].Dup) > 0 {
-				return false, ""
+				return false, "", "block timestamps differ"
 			}
 			interval := len(accT.Rotations) // the block written by Close
 			for k, ts := range accT.Rotations {
@@ -238,29 +283,29 @@ func explainF16(s *capharness.Script, a, tw *capharness.Result, accT *capharness
 				}
 			}
 			if !check(i, interval, true, ba[j].Flows, bt[j].Flows) {
-				return false, ""
+				return false, "", fmt.Sprintf("%s block %d: %s", n, ba[j].Ts, why)
 			}
 		}
 		if !check(i, len(accT.Rotations), true, a.FinalLive[n], tw.FinalLive[n]) {
-			return false, ""
+			return false, "", fmt.Sprintf("%s flows in memory at the end: %s", n, why)
 		}
 		if a.FinalStat[n] != tw.FinalStat[n] {
-			return false, ""
+			return false, "", "final status differs"
 		}
 		for j := range a.Events {
 			if a.Events[j].Kind == capharness.ActQuery && !check(i, len(accT.Rotations), false, a.Events[j].Live[n], tw.Events[j].Live[n]) {
-				return false, ""
+				return false, "", fmt.Sprintf("%s live query %d: %s", n, j, why)
 			}
 		}
 		any = true
 	}
 	if !any || witness == "" {
-		return false, ""
+		return false, "", "no IPv4 record with a truncated key"
 	}
 	m := moved[0]
 	ev := s.Actions[m.Event]
 	return true, fmt.Sprintf("IPv6 packet %v {%x} of %v delivered to %s inside the pause window ('%s') of action %d (%s): missing from its IPv6 record %v, counted in %s (key = first 13 bytes of the IPv6 hash %x); %d such packet(s) in the case",
-		m.P, m.P.Layer, s.Convs[m.P.Conv], s.Ifaces[m.Iface], m.Where, m.Event, ev.Kind, s.Convs[m.P.Conv].KeyFwd, witness, m.P.Hash, len(moved))
+		m.P, m.P.Layer, s.Convs[m.P.Conv], s.Ifaces[m.Iface], m.Where, m.Event, ev.Kind, s.Convs[m.P.Conv].KeyFwd, witness, m.P.Hash, len(moved)), ""
 }
 
 func subsets(ids []int) []map[int]bool {
@@ -365,7 +410,15 @@ func run(t *testing.T, rt *rapid.T, excluding bool) {
 		drop[l.P.ID] = true
 	}
 
-	twin := s.Flat(drop)
+	// a 'pre' packet the capture could not take before the lock (never observed; kept for soundness of the twin)
+	late := map[int]bool{}
+	for _, d := range a.Deferred {
+		if w := s.Actions[d.Event].Win[d.Iface]; w != nil && w.Pre == d.P {
+			late[d.P.ID] = true
+			evid.Class("note:pre-packet-deferred")
+		}
+	}
+	twin := s.Flat(drop, late)
 	tw := capharness.Run(t, twin) // bubble 2: the twin
 	if f := capharness.RunFailure(tw); f != nil {
 		f.Clause = "twin-" + f.Clause
@@ -381,7 +434,7 @@ func run(t *testing.T, rt *rapid.T, excluding bool) {
 	if diff != nil && len(lostIDs) > 0 {
 		// a reported packet may, but need not, be lost
 		for _, d := range subsets(lostIDs) {
-			t2 := s.Flat(d)
+			t2 := s.Flat(d, late)
 			r2 := capharness.Run(t, t2)
 			if capharness.RunFailure(r2) == nil && capharness.DiffRuns(s.Ifaces, a, r2, "paused", "twin") == nil {
 				twin, tw, accT, diff, drop = t2, r2, capharness.Account(t2), nil, d
@@ -391,7 +444,8 @@ func run(t *testing.T, rt *rapid.T, excluding bool) {
 		}
 	}
 	if diff != nil {
-		if ok, witness := explainF16(s, a, tw, accT, drop); ok {
+		ok, witness, why := explainF16(s, a, tw, accT, drop)
+		if ok {
 			evid.Class("known:ipv6-buffered-as-ipv4")
 			if evid.Known(findingF16, witness) {
 				return
@@ -405,6 +459,9 @@ func run(t *testing.T, rt *rapid.T, excluding bool) {
 				ps = append(ps, fmt.Sprintf("%v on %s (action %d)", l.P, s.Ifaces[l.Iface], l.Event))
 			}
 			lost = "\npackets left out of the twin because an overflow was reported when the capture took them: " + strings.Join(ps, ", ")
+		}
+		if w.v6 > 0 {
+			lost += "\nnot attributed to " + findingF16 + ": " + why
 		}
 		fatal(diff, lost+"\nerror log (paused run): "+strings.Join(a.ErrorLogs, " | "))
 	}
